@@ -111,3 +111,16 @@ pub fn harness_error(msg: &str) -> ! {
     eprintln!("HARNESS-ERROR: {msg}");
     std::process::exit(EXIT_HARNESS);
 }
+
+/// Evidence file for a property (`VERIF_EVIDENCE_DIR` overrides the directory,
+/// used only by sensitivity experiments so they do not clobber real evidence).
+pub fn evidence_path(id: &str) -> String {
+    let dir = std::env::var("VERIF_EVIDENCE_DIR").unwrap_or_else(|_| "/verif/evidence".into());
+    format!("{dir}/{id}.json")
+}
+
+pub fn replay_dir() -> String {
+    let dir = std::env::var("VERIF_REPLAY_DIR").unwrap_or_else(|_| "/verif/replays".into());
+    let _ = std::fs::create_dir_all(&dir);
+    dir
+}
